@@ -180,6 +180,12 @@ def check(R):
         codec_agreement(R, PRr + '::encode', PRr + '::decrypt_and_decode', PRr, 6)
         if groups:
             gr = R.body('transport::session::Sessions::get_or_create_for_group_rx')
-            R.cut('P2', gr, 'touch the per-sender group counter state', call_bbs(gr, 'transport::dedup::GroupCtrStore::post_recv'), 'the message authenticated under an operational group key',
+            from common import named_local, agg_flowing_to
+            gk = named_local(gr, 'group_key_found')
+            okor = [t for t in gr.calls('core::option::Option::ok_or') if (op_place(t.d['a'][0]) or [None])[0] in gk]
+            R.floor('group_key_found.ok_or(..)', len(okor), 1)
+            R.cut('P2', gr, 'touch the per-sender group counter state', call_bbs(gr, 'transport::dedup::GroupCtrStore::post_recv'), 'an operational group key authenticated the message (group_key_found is Some)',
+                  lambda: R.call_guard(gr, 'core::option::Option::ok_or', pick=lambda t: t.bb in {o.bb for o in okor}))
+            R.cut('P2', gr, 'group_key_found = Some(..)', agg_flowing_to(gr, gk, 'Some'), 'try_group_decrypt returned Some',
                   lambda: R.call_guard(gr, 'transport::session::Sessions::try_group_decrypt'))
 
